@@ -22,10 +22,23 @@ toRelativeGenomicPositions = FunctionSpec(
     file='src/correlation/optical_map.py', qualname='toRelativeGenomicPositions',
     params=dict(correlationCoordinates=INT, resolution=INT, start=REAL), returns=REAL,
     requires=lambda C: [('resolution_positive', C.resolution >= 1)],
-    ensures=_trgp_ensures,
+    ensures=_trgp_ensures, elementwise={'correlationCoordinates'},
     serves=('C16', 'C06'),
     note="bin index -> coordinate of the bin centre; every integer coordinate of bin c is within resolution/2",
 )
+
+
+def _trgp_real_ensures(C, res):
+    c, r, s = C.correlationCoordinates, C.resolution, C.start
+    half_up = z3.If(r % 2 == 0, r / 2, r / 2 + 1)
+    return [('closed_form', res == c * z3.ToReal(r) + s + half_up - 1)]
+
+
+toRelativeGenomicPositions_real = FunctionSpec(
+    file='src/correlation/optical_map.py', qualname='toRelativeGenomicPositions', variant='real',
+    params=dict(correlationCoordinates=REAL, resolution=INT, start=REAL), returns=REAL,
+    requires=lambda C: [('resolution_positive', C.resolution >= 1)], ensures=_trgp_real_ensures, elementwise={'correlationCoordinates'},
+    serves=('C16',), note="the same conversion for an interpolated (fractional) bin coordinate, e.g. the half-height points of a peak: coordinate * resolution + start + ceil(resolution/2) - 1")
 
 # ------------------------------------------------------------------ OpticalMap.trim
 
@@ -97,7 +110,7 @@ getPositionsWithSiteIds = FunctionSpec(
     note="site id = label number in the whole molecule (shift + index), reverse strand mirrors coordinates about length-1",
 )
 
-SPECS = [toRelativeGenomicPositions, trim, getPositionsWithSiteIds]
+SPECS = [toRelativeGenomicPositions, toRelativeGenomicPositions_real, trim, getPositionsWithSiteIds]
 
 # ------------------------------------------------------------------ lemmas over the contracts
 from pyvc.lemma import LemmaSpec
@@ -136,3 +149,62 @@ def _mirror(L):
 LEMMAS = [LemmaSpec('C17::trim_is_idempotent', _trim_idempotent, ('C17',), "trim(trim(m)) == trim(m) field-wise, from the contract of OpticalMap.trim"),
           LemmaSpec('C11::mirror_image_read_forwards_equals_query_read_on_reverse_strand', _mirror, ('C11',),
                     "from the contract of getPositionsWithSiteIds")]
+
+
+# ------------------------------------------------------------------ CorrelationResult.createPeaks (C16: the peaksCount highest peaks of one correlation)
+PEAKP = OBJ('Peak')
+PROPS = RECORD(peak_heights=LIST(REAL), left_ips=LIST(REAL), right_ips=LIST(REAL))
+CPIDX = z3.Function('created_peak_source_index', z3.ArraySort(z3.IntSort(), Ref), z3.IntSort(), z3.IntSort())
+CPINV = z3.Function('created_peak_place_of_source', z3.ArraySort(z3.IntSort(), Ref), z3.IntSort(), z3.IntSort())
+
+
+def _centre(c, r, s):
+    half_up = z3.If(r % 2 == 0, r / 2, r / 2 + 1)
+    return c * z3.ToReal(r) + s + half_up - 1
+
+
+def _cp_requires(C):
+    n = C.peakPositions.len
+    pr = C.peakProperties
+    return [('resolution_positive', C.resolution >= 1), ('peaks_count_not_negative', C.peaksCount >= 0),
+            ('one_property_entry_per_peak', z3.And(pr['peak_heights'].len == n, pr['left_ips'].len == n, pr['right_ips'].len == n))]
+
+
+def _cp_ensures(C, res):
+    pos, pr = C.peakPositions, C.peakProperties
+    H, Lb, Rb = pr['peak_heights'], pr['left_ips'], pr['right_ips']
+    n, cnt = pos.len, C.peaksCount
+    r, s, noise = C.resolution, C.correlationStart, C.noiseLevel
+    k, k2, j = z3.Int('cpk'), z3.Int('cpk2'), z3.Int('cpj')
+    if C.proving:
+        B = C.F.bestPeaksIndices
+        g = lambda x: B[x]
+        ap = C.note('last_argpartition')
+        w = (lambda x: ap['inv'](x)) if ap is not None else (lambda x: x)
+    else:
+        g = lambda x: CPIDX(res.v.arrs[0], x)
+        w = lambda x: CPINV(res.v.arrs[0], x)
+    m = res.len
+    pat = {} if C.proving else dict(patterns=[res.raw(k).t])
+    return [('as_many_peaks_as_asked_for_or_all_of_them', m == z3.If(cnt < n, cnt, n)),
+            ('every_created_peak_is_one_of_the_found_peaks_converted_to_the_centre_of_its_bin', z3.ForAll([k], z3.Implies(z3.And(0 <= k, k < m), z3.And(
+                0 <= g(k), g(k) < n,
+                res[k].position == _centre(z3.ToReal(pos[g(k)]), r, s), res[k].height == H[g(k)], res[k].score == H[g(k)] - noise,
+                res[k].leftProminenceBasePosition == _centre(Lb[g(k)], r, s), res[k].rightProminenceBasePosition == _centre(Rb[g(k)], r, s))), **pat)),
+            ('no_found_peak_is_used_twice', z3.ForAll([k, k2], z3.Implies(z3.And(0 <= k, k < k2, k2 < m), g(k) != g(k2)),
+                                                      **({} if C.proving else dict(patterns=[MP(g(k), g(k2))])))),
+            # (a found peak that is higher than some kept peak is itself kept, at place w(j): witness = its place in the partition order)
+            ('no_dropped_peak_is_higher_than_a_kept_one', z3.ForAll([j, k], z3.Implies(
+                z3.And(0 <= j, j < n, 0 <= k, k < m, H[j] > H[g(k)]), z3.And(0 <= w(j), w(j) < m, g(w(j)) == j)),
+                **({} if C.proving else dict(patterns=[MP(H[j], res.raw(k).t)]))))]
+
+
+createPeaks = FunctionSpec(
+    file='src/correlation/optical_map.py', qualname='CorrelationResult.createPeaks',
+    params=dict(peakPositions=LIST(INT), peakProperties=PROPS, resolution=INT, correlationStart=REAL, noiseLevel=REAL, peaksCount=INT), returns=LIST(PEAKP),
+    requires=_cp_requires, ensures=_cp_ensures, serves=('C16', 'C05'),
+    note="the peaks of one correlation: min(peaksCount, found) peaks, each one of the found peaks (none twice) with its bin converted to the bin-centre coordinate, "
+         "height kept, score = height - noise level; when peaks are dropped, none of them is higher than a kept one (numpy argpartition, fancy indexing and "
+         "element-wise arithmetic as assumed library contracts)")
+
+SPECS += [createPeaks]
